@@ -77,6 +77,7 @@ def opD3 (L : Level) (vec : Bytes) (nilRecv : Bool) : String :=
   if nilRecv && e.isSome then head
   else head ++ " " ++ dump3 L o ++ (if dump3 L o == dump3 L o then " q2=1" else " q2=0")
     ++ " vq=" ++ (if L == .base then "-" else String.ofList ((levelsUpTo L).filter (· != L) |>.map fun _ => '1'))
+    ++ " fq=1"
     ++ (if e.isNone then flags3 L o vec else "")
 
 /-- `RD3`: the constructor result has been used for an earlier `Decode(pre)` (outcome ignored) -/
@@ -86,6 +87,7 @@ def opRD3 (L : Level) (pre vec : Bytes) : String :=
   let head := s!"r={if e.isNone then "1" else "0"} e={errTag e}"
   head ++ " " ++ dump3 L o ++ " q2=1"
     ++ " vq=" ++ (if L == .base then "-" else String.ofList ((levelsUpTo L).filter (· != L) |>.map fun _ => '1'))
+    ++ " fq=1"
     ++ (if e.isNone then flags3 L o vec else "")
 
 def dump2 (L : Level) (o : V2.Obj2) : String :=
@@ -125,6 +127,7 @@ def opD2 (L : Level) (vec : Bytes) (nilRecv : Bool) : String :=
   if nilRecv && e.isSome then head
   else head ++ " " ++ dump2 L o ++ (if dump2 L o == dump2 L o then " q2=1" else " q2=0")
     ++ " vq=" ++ (if L == .base then "-" else String.ofList ((levelsUpTo L).filter (· != L) |>.map fun _ => '1'))
+    ++ " fq=1"
     ++ (if e.isNone then flags2 L o vec else "")
 
 
@@ -134,6 +137,7 @@ def opRD2 (L : Level) (pre vec : Bytes) : String :=
   let head := s!"r={if e.isNone then "1" else "0"} e={errTag e}"
   head ++ " " ++ dump2 L o ++ " q2=1"
     ++ " vq=" ++ (if L == .base then "-" else String.ofList ((levelsUpTo L).filter (· != L) |>.map fun _ => '1'))
+    ++ " fq=1"
     ++ (if e.isNone then flags2 L o vec else "")
 
 end Drv
